@@ -18,6 +18,7 @@ CONSTANTS Thr,            \* thread ids
           UsesPlanner,    \* TRUE for the FFTW back-end
           DtorFrees,      \* "all" : the destructor releases every allocation of the constructor | "partial" (spqlios as pinned: 1 of 4)
           TableScope,     \* "proc" : every processor owns its read-only twiddle tables | "firstowner" : tables published once and freed by the processor that built them
+          PolyShare,      \* FALSE: a Lagrange polynomial is only used by the thread that created it | TRUE: the first thread's polynomial is handed to the others
           TempScope       \* "call" : evaluation temporaries (decomposition, FFT images, accumulator copy, test vector) are allocated per call | "static" : one set shared by all callers
 VARIABLES pc,             \* pc[t]
           left,           \* transforms still to do
@@ -29,8 +30,10 @@ VARIABLES pc,             \* pc[t]
           heap,           \* heap[p] = number of live allocations made by processor p's constructor
           tab,            \* shared tables (TableScope = "firstowner"): [owner, state \in {"none","live","freed"}]
           tmp,            \* tmp[x] = tag of the (thread,call) whose data is in the evaluation temporaries x
-          uaf             \* TRUE once a transform has read tables that were already freed
-vars == <<pc, left, proc, buf, mutex, inplanner, result, heap, tab, tmp, uaf>>
+          uaf,            \* TRUE once a transform has read tables that were already freed
+          poly,           \* the handed-over Lagrange polynomial: "none" or the thread whose processor its precomp field points to
+          puaf            \* TRUE once an operation on that polynomial has read the processor of a thread that has exited
+vars == <<pc, left, proc, buf, mutex, inplanner, result, heap, tab, tmp, uaf, poly, puaf>>
 NAlloc == 4
 P(t) == IF ProcScope = "thread" THEN t ELSE "shared"
 Procs == IF ProcScope = "thread" THEN Thr ELSE {"shared"}
@@ -42,45 +45,49 @@ Init == /\ pc = [t \in Thr |-> "start"] /\ left = [t \in Thr |-> Calls]
         /\ proc = [p \in Procs |-> "none"] /\ buf = [p \in Procs |-> <<"free", 0>>]
         /\ mutex = "none" /\ inplanner = {} /\ result = [t \in Thr |-> <<>>] /\ heap = [p \in Procs |-> 0]
         /\ tab = [owner |-> "none", state |-> "none"] /\ tmp = [x \in Temps |-> <<"free", 0>>] /\ uaf = FALSE
+        /\ poly = "none" /\ puaf = FALSE
 \* ---- construction on first use (thread_local dynamic initialisation) ----
 CtorLock(t)   == pc[t] = "start" /\ proc[P(t)] = "none" /\ UsesPlanner /\ mutex = "none"
-                 /\ mutex' = t /\ pc' = [pc EXCEPT ![t] = "plan"] /\ UNCHANGED <<left,proc,buf,inplanner,result,heap,tab,tmp,uaf>>
+                 /\ mutex' = t /\ pc' = [pc EXCEPT ![t] = "plan"] /\ UNCHANGED <<left,proc,buf,inplanner,result,heap,tab,tmp,uaf,poly,puaf>>
 CtorPlanIn(t) == pc[t] = "plan" /\ inplanner' = inplanner \cup {t} /\ pc' = [pc EXCEPT ![t] = "plan2"]
-                 /\ UNCHANGED <<left,proc,buf,mutex,result,heap,tab,tmp,uaf>>
+                 /\ UNCHANGED <<left,proc,buf,mutex,result,heap,tab,tmp,uaf,poly,puaf>>
 CtorPlanOut(t)== pc[t] = "plan2" /\ inplanner' = inplanner \ {t} /\ mutex' = "none"
                  /\ proc' = [proc EXCEPT ![P(t)] = "live"] /\ pc' = [pc EXCEPT ![t] = "idle"] /\ heap' = [heap EXCEPT ![P(t)] = NAlloc] /\ tab' = Publish(t)
-                 /\ UNCHANGED <<left,buf,result,tmp,uaf>>
+                 /\ UNCHANGED <<left,buf,result,tmp,uaf,poly,puaf>>
 CtorPlain(t)  == pc[t] = "start" /\ proc[P(t)] = "none" /\ ~UsesPlanner
                  /\ proc' = [proc EXCEPT ![P(t)] = "live"] /\ pc' = [pc EXCEPT ![t] = "idle"] /\ heap' = [heap EXCEPT ![P(t)] = NAlloc] /\ tab' = Publish(t)
-                 /\ UNCHANGED <<left,buf,mutex,inplanner,result,tmp,uaf>>
+                 /\ UNCHANGED <<left,buf,mutex,inplanner,result,tmp,uaf,poly,puaf>>
 CtorSkip(t)   == pc[t] = "start" /\ proc[P(t)] = "live" /\ pc' = [pc EXCEPT ![t] = "idle"]
-                 /\ UNCHANGED <<left,proc,buf,mutex,inplanner,result,heap,tab,tmp,uaf>>
+                 /\ UNCHANGED <<left,proc,buf,mutex,inplanner,result,heap,tab,tmp,uaf,poly,puaf>>
 \* ---- one transform = load scratch ; run ; read scratch -------------------
 Begin(t) == pc[t] = "idle" /\ left[t] > 0 /\ proc[P(t)] = "live"
             /\ buf' = [buf EXCEPT ![P(t)] = <<t, left[t]>>] /\ tmp' = [tmp EXCEPT ![T(t)] = <<t, left[t]>>] /\ pc' = [pc EXCEPT ![t] = "loaded"]
-            /\ UNCHANGED <<left,proc,mutex,inplanner,result,heap,tab,uaf>>
-Run(t)   == pc[t] = "loaded" /\ pc' = [pc EXCEPT ![t] = "ran"] /\ uaf' = (uaf \/ (TableScope = "firstowner" /\ tab.state = "freed")) /\ UNCHANGED <<left,proc,buf,mutex,inplanner,result,heap,tab,tmp>>
+            /\ UNCHANGED <<left,proc,mutex,inplanner,result,heap,tab,uaf,poly,puaf>>
+\* with PolyShare the first transform creates the shared polynomial (its precomp = the creator's processor); a later operation by anyone reads that processor
+Run(t)   == pc[t] = "loaded" /\ pc' = [pc EXCEPT ![t] = "ran"] /\ uaf' = (uaf \/ (TableScope = "firstowner" /\ tab.state = "freed"))
+            /\ poly' = (IF PolyShare /\ poly = "none" THEN t ELSE poly)
+            /\ puaf' = (puaf \/ (PolyShare /\ poly # "none" /\ proc[P(poly)] = "dead")) /\ UNCHANGED <<left,proc,buf,mutex,inplanner,result,heap,tab,tmp>>
 End(t)   == pc[t] = "ran"
             /\ result' = [result EXCEPT ![t] = Append(@, IF buf[P(t)] = <<t, left[t]>> /\ tmp[T(t)] = <<t, left[t]>> THEN "ok" ELSE "corrupt")]
             /\ tmp' = [tmp EXCEPT ![T(t)] = IF @ = <<t, left[t]>> THEN <<"free", 0>> ELSE @]
             /\ buf' = [buf EXCEPT ![P(t)] = IF @ = <<t, left[t]>> THEN <<"free", 0>> ELSE @]
             /\ left' = [left EXCEPT ![t] = @ - 1] /\ pc' = [pc EXCEPT ![t] = "idle"]
-            /\ UNCHANGED <<proc,mutex,inplanner,heap,tab,uaf>>
+            /\ UNCHANGED <<proc,mutex,inplanner,heap,tab,uaf,poly,puaf>>
 \* ---- thread exit: destructor of the thread's processor --------------------
 ExitLock(t)  == pc[t] = "idle" /\ left[t] = 0 /\ ProcScope = "thread" /\ UsesPlanner /\ DtorLocked /\ mutex = "none"
-                /\ mutex' = t /\ pc' = [pc EXCEPT ![t] = "dtor"] /\ UNCHANGED <<left,proc,buf,inplanner,result,heap,tab,tmp,uaf>>
+                /\ mutex' = t /\ pc' = [pc EXCEPT ![t] = "dtor"] /\ UNCHANGED <<left,proc,buf,inplanner,result,heap,tab,tmp,uaf,poly,puaf>>
 ExitNoLock(t)== pc[t] = "idle" /\ left[t] = 0 /\ ProcScope = "thread" /\ UsesPlanner /\ ~DtorLocked
-                /\ pc' = [pc EXCEPT ![t] = "dtor"] /\ UNCHANGED <<left,proc,buf,mutex,inplanner,result,heap,tab,tmp,uaf>>
+                /\ pc' = [pc EXCEPT ![t] = "dtor"] /\ UNCHANGED <<left,proc,buf,mutex,inplanner,result,heap,tab,tmp,uaf,poly,puaf>>
 DtorIn(t)    == pc[t] = "dtor" /\ inplanner' = inplanner \cup {t} /\ pc' = [pc EXCEPT ![t] = "dtor2"]
-                /\ UNCHANGED <<left,proc,buf,mutex,result,heap,tab,tmp,uaf>>
+                /\ UNCHANGED <<left,proc,buf,mutex,result,heap,tab,tmp,uaf,poly,puaf>>
 DtorOut(t)   == pc[t] = "dtor2" /\ inplanner' = inplanner \ {t} /\ mutex' = (IF mutex = t THEN "none" ELSE mutex)
                 /\ proc' = [proc EXCEPT ![P(t)] = "dead"] /\ pc' = [pc EXCEPT ![t] = "gone"] /\ heap' = [heap EXCEPT ![P(t)] = (IF DtorFrees = "all" THEN 0 ELSE NAlloc - 1)] /\ tab' = Unpublish(t)
-                /\ UNCHANGED <<left,buf,result,tmp,uaf>>
+                /\ UNCHANGED <<left,buf,result,tmp,uaf,poly,puaf>>
 ExitPlain(t) == pc[t] = "idle" /\ left[t] = 0 /\ (~UsesPlanner \/ ProcScope # "thread")
                 /\ proc' = [proc EXCEPT ![P(t)] = IF ProcScope = "thread" THEN "dead" ELSE @]
                 /\ heap' = [heap EXCEPT ![P(t)] = IF ProcScope = "thread" THEN (IF DtorFrees = "all" THEN 0 ELSE NAlloc - 1) ELSE @]
                 /\ tab' = (IF ProcScope = "thread" THEN Unpublish(t) ELSE tab)
-                /\ pc' = [pc EXCEPT ![t] = "gone"] /\ UNCHANGED <<left,buf,mutex,inplanner,result,tmp,uaf>>
+                /\ pc' = [pc EXCEPT ![t] = "gone"] /\ UNCHANGED <<left,buf,mutex,inplanner,result,tmp,uaf,poly,puaf>>
 Next == \E t \in Thr : CtorLock(t) \/ CtorPlanIn(t) \/ CtorPlanOut(t) \/ CtorPlain(t) \/ CtorSkip(t)
                     \/ Begin(t) \/ Run(t) \/ End(t)
                     \/ ExitLock(t) \/ ExitNoLock(t) \/ DtorIn(t) \/ DtorOut(t) \/ ExitPlain(t)
@@ -93,5 +100,7 @@ ScratchPrivate   == \A t1, t2 \in Thr : (t1 # t2 /\ pc[t1] \in {"loaded", "ran"}
 ReleasedOnExit   == \A t \in Thr : (pc[t] = "gone" /\ ProcScope = "thread") => heap[P(t)] = 0
 \* no transform reads twiddle tables that were freed by another thread's exit
 TablesAlive      == ~uaf
+\* no operation on a Lagrange polynomial reads the processor of a thread that has exited (finding D8: violated by the design as pinned once polynomials change hands)
+PolyProcAlive    == ~puaf
 AllDone == <>(\A t \in Thr : pc[t] = "gone")
 =============================================================================
